@@ -12,13 +12,17 @@ From src/datashard/storage_backend.py
     gen_open_key    prefix path              S3StorageBackend.open_seekable: the key handed to the reader
     gen_open_size_path path                  S3StorageBackend.open_seekable: the path whose get_size() becomes the
                                              reader's size
+    gen_code_open_notfound / gen_code_readtag_notfound   the error-code literal compared in open_file's open_op /
+                                             read_file_with_etag's read_op (mapped to FileNotFoundError)
 Checked and fail-closed (Unsupported) rather than emitted, because the model has no vocabulary for the alternative:
   * open_seekable is exactly  key = <str expr>; size = self.get_size(<str expr>); return io.BufferedReader(
     S3RangeFile(self.s3, self.bucket, key, size), ...)  -- the size a reader works with is the answer of a get_size()
     made by THIS call (no remembered value), the reader reads the key computed by THIS call;
   * S3RangeFile.__init__ stores key / size as given and starts at position 0; _size and _key are assigned nowhere
     else; _pos is assigned only in __init__ / seek / readinto / readall; tell() returns self._pos;
-  * _get_range sends exactly  Range: bytes=<first>-<last>  for self._key (golden digest).
+  * _get_range sends exactly  Range: bytes=<first>-<last>  for self._key (golden digest);
+  * open_file / S3FileStream.read / read_file_with_etag / write_file_cas (hand-modelled in Model/Backend.v: Stream,
+    ReadTag, WriteCas) are pinned by golden digests.
 
 Accepted subset for the integer kernels (anything else raises Unsupported):
   int expr : parameters, self._pos, self._size, locals, int constants, io.SEEK_SET/CUR/END, a + b, a - b,
@@ -33,7 +37,7 @@ import hashlib
 from typing import Dict, List, Optional
 
 from core import Unsupported, dump, find_function, generator, parse_module, strip_docstring
-from gen_s3 import Env as SEnv, sexpr
+from gen_s3 import Env as SEnv, find_code_compare, lit, sexpr
 
 IO_CONST = {"SEEK_SET": 0, "SEEK_CUR": 1, "SEEK_END": 2}
 
@@ -140,6 +144,10 @@ PINS = {
     ("S3RangeFile", "__init__"): "db75f65efcf4343c",
     ("S3RangeFile", "tell"): "27fcbc1f812b90bf",
     ("S3RangeFile", "_get_range"): "4a98dbc3f6085381",
+    ("S3FileStream", "read"): "6c25217c7f02295c",
+    ("S3StorageBackend", "open_file"): "8b190d05be9dbeaa",
+    ("S3StorageBackend", "read_file_with_etag"): "1924451be4583b66",
+    ("S3StorageBackend", "write_file_cas"): "f026aa939c17f9c2",
 }
 
 READINTO_TAIL = ("[Assign([Name('n', Store())], Call(Name('len', Load()), [Name('data', Load())], [])), "
@@ -214,7 +222,7 @@ def check_attr_writes(cls: ast.ClassDef) -> None:
 def gen_range(src: str) -> str:
     sb = parse_module(src, "storage_backend.py")
     got = pin_digests(sb)
-    bad = [f"S3RangeFile.{k[1]} (expected {PINS[k]}, got {v})" for k, v in got.items() if PINS[k] != v]
+    bad = [f"{k[0]}.{k[1]} (expected {PINS[k]}, got {v})" for k, v in got.items() if PINS[k] != v]
     if bad:
         raise Unsupported("hand-modelled code changed shape (golden AST digest): " + "; ".join(bad))
     cls = next((c for c in ast.walk(sb) if isinstance(c, ast.ClassDef) and c.name == "S3RangeFile"), None)
@@ -266,6 +274,9 @@ def gen_range(src: str) -> str:
     if not ok:
         raise Unsupported(f"open_seekable: does not return io.BufferedReader(S3RangeFile(self.s3, self.bucket, key, size), ...): {dump(ret)}")
 
+    code_open = find_code_compare(find_function(sb, "open_file", "S3StorageBackend"), (ast.Eq,), "open_file")
+    code_readtag = find_code_compare(find_function(sb, "read_file_with_etag", "S3StorageBackend"), (ast.Eq,), "read_file_with_etag")
+
     return f"""(* GENERATED by translator/gen_range.py from src/datashard/storage_backend.py -- do not edit *)
 From Coq Require Import List Bool Ascii String ZArith.
 Require Import DS.Model.Str DS.Gen.GenS3.
@@ -289,6 +300,10 @@ Definition gen_open_key (prefix path : str) : str :=
   {open_key}.
 Definition gen_open_size_path (path : str) : str :=
   {size_path}.
+
+(* the GetObject error code open_file / read_file_with_etag turn into FileNotFoundError *)
+Definition gen_code_open_notfound : str := {lit(code_open)}.
+Definition gen_code_readtag_notfound : str := {lit(code_readtag)}.
 """
 
 
